@@ -69,7 +69,78 @@ def run_case(case, workdir):
         max_crash_points=case.get("max_crash_points", 80 if quick else None),
         max_states=0,
     )
-    return finish(case, scn, res, pre)
+    out = finish(case, scn, res, pre)
+    n_kill = case.get("sigkill", (1 if case["run_index"] % 6 == 0 else 0) if quick else 2)
+    if n_kill and not res["aborted"] and "scenario" not in case:
+        vs, done = sigkill_sample(scn, workdir, rng_from(case["fault_seed"] + 9), n_kill)
+        out["violations"] += vs
+        out["evaluations"] += 2 * done
+        if done:
+            out["faults_fired"]["real_SIGKILL_of_child_process"] = done
+    return out
+
+
+def kill_child(arg):
+    """Runs in a child interpreter: the scenario, with a REAL SIGKILL of this process at likelihood call k."""
+    import os
+    import signal
+
+    from ..runner import run_process
+
+    def before(A, res):
+        def pre(kind):
+            if kind == "like" and res.model.n_like_calls == arg["k"]:
+                os.kill(os.getpid(), signal.SIGKILL)
+
+        res.model.pre_listeners.append(pre)
+
+    run_process(arg["scenario"], arg["workdir"], fresh_file=True, before_sample=before)
+    return {"survived": True}
+
+
+def sigkill_sample(scn, workdir, rng, n):
+    """Validates the crash model: after a real SIGKILL at the seam the file must be what the in-process exception
+    crash leaves -- the payload acknowledged before that call in the reference run (semantic comparison across processes)."""
+    import json
+    import os
+    import subprocess
+    import sys
+
+    from .. import ROOT
+    from ..crashloop import _loadable
+    from ..harness import violation
+    from ..runner import payload_digest, read_file_checkpoint, run_process
+
+    V, done = [], 0
+    ref = run_process(scn, workdir, fresh_file=True)
+    if ref.status != "ok" or ref.model.n_like_calls < 3:
+        return V, 0
+    like_seq = [s for s, k, kw in ref.trace.events if k == "like"]
+    ck_seq = [s for s, k, kw in ref.trace.events if k == "ckpt"]
+    for _ in range(n):
+        k = int(rng.integers(1, ref.model.n_like_calls))
+        env = dict(os.environ, PYTHONHASHSEED="0", PYTHONPATH=ROOT + os.pathsep + os.environ.get("PYTHONPATH", ""))
+        p = subprocess.run([sys.executable, "-m", "sim.worker", "sim.checks.c12", "kill_child"],
+                           input=json.dumps({"scenario": scn, "workdir": workdir, "k": k}), capture_output=True, text=True, env=env, cwd=ROOT, timeout=600)
+        if p.returncode != -9:
+            continue  # the child did not reach call k (should not happen) -- not judged
+        done += 1
+        n_before = sum(1 for s_ in ck_seq if s_ < like_seq[k])
+        expected = ref.payloads[n_before - 1][2] if n_before else None
+        f = os.path.join(workdir, "run.h5")
+        try:
+            durable = read_file_checkpoint(f)
+        except Exception as e:  # noqa: BLE001
+            V.append(violation("c12.sigkill_file_unreadable", f"after a real SIGKILL at likelihood call {k} the file cannot be opened: {type(e).__name__}: {e}",
+                               {"kill": "SIGKILL"}))
+            continue
+        if payload_digest(durable) != payload_digest(expected):
+            V.append(violation("c12.sigkill_file_not_current", f"after a real SIGKILL at likelihood call {k} the file's checkpoint is not the one acknowledged "
+                               f"before that call ({None if durable is None else len(durable)} bytes vs {None if expected is None else len(expected)})", {"kill": "SIGKILL"}))
+        err = _loadable(f, scn)
+        if err is not None:
+            V.append(violation("c12.sigkill_not_loadable", f"after a real SIGKILL at likelihood call {k} the file cannot be resumed from: {err}", {"kill": "SIGKILL"}))
+    return V, done
 
 
 def finish(case, scn, res, pre):
